@@ -339,6 +339,13 @@ func (wd *World) fnBody(j Job[int]) (int, error) {
 			s.CloseInFnSeq = wd.root.rec.stamp()
 		}
 	}
+	if s.Delay > 0 {
+		simrt.Sleep(time.Duration(s.Delay) * timeUnit)
+	}
+	if s.Gated {
+		s.gate.Wait()
+	}
+	// (after the wait, so that lifecycle calls issued meanwhile are under way when it calls back)
 	switch s.Reenter {
 	case 1:
 		// a worker function may look at its worker and queue like anybody else
@@ -352,12 +359,6 @@ func (wd *World) fnBody(j Job[int]) (int, error) {
 	case 3:
 		// ... or tune the pool it runs in (refused with ErrNotRunningWorker while a stop waits for this very job)
 		wd.runOp(Op{K: opTune, A: 1 + s.N%4})
-	}
-	if s.Delay > 0 {
-		simrt.Sleep(time.Duration(s.Delay) * timeUnit)
-	}
-	if s.Gated {
-		s.gate.Wait()
 	}
 	wd.root.exit(wd, s)
 	switch s.Outcome {
